@@ -2,7 +2,7 @@
     Property theorems only. *)
 From stdpp Require Import gmap list numbers sorting.
 From Coq Require Import ZArith NArith.
-From Verif Require Import Tx.Store Tx.Ledger Tx.Hist Tx.Inv Tx.Refine Tx.LeaseLemmas.
+From Verif Require Import Tx.Store Tx.Ledger Tx.Hist Tx.Inv Tx.Refine Tx.LeaseLemmas Tx.InvObs Tx.InvLease Tx.RefineAll Tx.Corollaries.
 Local Open Scope Z_scope.
 
 (** Per-operation clauses, valid in EVERY store state (hence in every state
@@ -11,19 +11,19 @@ Local Open Scope Z_scope.
     every instant. *)
 Theorem C12_excluded_from_spendable : ∀ U s op now,
   is_locked_b s op now = true → ∀ u, u ∈ unspent_outputs U s now → u_op u ≠ op.
-Proof. exact leased_not_spendable. Qed.
+Proof. exact LeaseLemmas.leased_not_spendable. Qed.
 Print Assumptions C12_excluded_from_spendable.
 
 Theorem C12_other_id_cannot_lease : ∀ id op dur now s l,
   is_known_output s op = true → is_locked s op now = Some l → l_id l ≠ id →
   lock_output id op dur now s = (ErrAlreadyLocked, s).
-Proof. exact lease_other_id_rejected. Qed.
+Proof. exact LeaseLemmas.lease_other_id_rejected. Qed.
 Print Assumptions C12_other_id_cannot_lease.
 
 Theorem C12_other_id_cannot_release : ∀ id op now s l,
   is_known_output s op = true → is_locked s op now = Some l → l_id l ≠ id →
   unlock_output id op now s = (ErrUnlockNotAllowed, s).
-Proof. exact release_other_id_rejected. Qed.
+Proof. exact LeaseLemmas.release_other_id_rejected. Qed.
 Print Assumptions C12_other_id_cannot_release.
 
 Theorem C12_same_id_extends : ∀ id op dur now s l,
@@ -31,38 +31,64 @@ Theorem C12_same_id_extends : ∀ id op dur now s l,
   ∃ s', lock_output id op dur now s = (LockOk (now + dur), s') ∧
         locked s' !! op = Some {| l_id := id; l_expiry := trunc_sec (now + dur) |} ∧
         (∀ op', op' ≠ op → locked s' !! op' = locked s !! op').
-Proof. exact lease_same_id_extends. Qed.
+Proof. exact LeaseLemmas.lease_same_id_extends. Qed.
 Print Assumptions C12_same_id_extends.
 
 Theorem C12_owner_release_frees : ∀ id op now s l,
   is_known_output s op = true → is_locked s op now = Some l → l_id l = id →
   ∃ s', unlock_output id op now s = (UnlockOk, s') ∧ is_locked s' op now = None ∧
         (∀ op', op' ≠ op → locked s' !! op' = locked s !! op').
-Proof. exact release_owner_frees. Qed.
+Proof. exact LeaseLemmas.release_owner_frees. Qed.
 Print Assumptions C12_owner_release_frees.
 
 (** "available again exactly when the expiry time is reached" *)
 Theorem C12_expires_exactly_at_expiry : ∀ s op now,
   is_locked s op now = None ↔
   (locked s !! op = None ∨ ∃ l, locked s !! op = Some l ∧ l_expiry l <= now).
-Proof. exact is_locked_None. Qed.
+Proof. exact LeaseLemmas.is_locked_None. Qed.
 Print Assumptions C12_expires_exactly_at_expiry.
 
 Theorem C12_unknown_output_rejected : ∀ id op dur now s,
   is_known_output s op = false → lock_output id op dur now s = (ErrUnknownOutput, s).
-Proof. exact lease_unknown_output_rejected. Qed.
+Proof. exact LeaseLemmas.lease_unknown_output_rejected. Qed.
 Print Assumptions C12_unknown_output_rejected.
 
-(** History-level clauses (excluded from the balance, a confirmed spend
-    removes the lease, "known" means credited and not spent by a confirmed
-    transaction) are the ledger definitions [spec_balance] (uses [leased]),
-    [spec_confirm] (deletes the leases of the spent outpoints) and
-    [known_output]; they transfer to the store through the refinement: *)
-Definition C12_history_statement : Prop :=
+(** History-level clauses: after every prefix of every chain-consistent
+    history (any interleaving of lease, release, clock, sweep, receipt, spend,
+    confirmation and reorg events) the lease bucket equals the ledger's leases,
+    "known output" means credited output of a known transaction that no
+    confirmed transaction spends, and balance and spendable set are the
+    ledger's - which exclude every leased output ([leased] in [spec_balance] /
+    [spec_utxos]) and count a leased and unconfirmed-spent output once. *)
+Theorem C12_leases_follow_ledger :
   ∀ (U : universe) (h p : list event),
     wf_universe U = true → chain_consistent U h = true → p `prefix_of` h →
     let s := st (run U p) in let F := fs (spec_run U p) in let now := clock (run U p) in
     locked s = f_leases F ∧
     (∀ op, is_known_output s op = known_output U F op) ∧
     (∀ minconf sync, 0 <= minconf → (∀ t hh b, f_conf F !! t = Some (hh, b) → hh <= sync) →
-       balance U s minconf sync now = spec_balance U F minconf sync now).
+       balance U s minconf sync now = spec_balance U F minconf sync now) ∧
+    unspent_outputs U s now ≡ₚ spec_utxos U F now.
+Proof. exact c12_history_holds. Qed.
+Print Assumptions C12_leases_follow_ledger.
+
+(** A leased output contributes nothing to the balance. *)
+Theorem C12_excluded_from_balance : ∀ U s F op now l minconf sync,
+  wf_universe U = true → Inv U s F → is_locked s op now = Some l →
+  balance U s minconf sync now =
+  sumZ (omap (bal_contrib minconf sync) (filter (λ u, u_op u ≠ op) (unspent_outputs U s now))).
+Proof. exact lease_excludes_from_balance. Qed.
+Print Assumptions C12_excluded_from_balance.
+
+(** A confirmed spend of the output removes the lease (ledger step). *)
+Theorem C12_confirmed_spend_removes_lease : ∀ U F t b op,
+  f_conf F !! t = None → op ∈ tx_ins U t → f_leases (spec_confirm U F t b) !! op = None.
+Proof.
+  intros U F t b op Hn Hin. destruct (spec_confirm_char U F t b Hn) as (_ & _ & Hl).
+  rewrite Hl. by rewrite bool_decide_eq_true_2.
+Qed.
+Print Assumptions C12_confirmed_spend_removes_lease.
+
+(** Leases survive restart: the lease bucket is part of the database state
+    (the model's [store] has no in-memory part), exercised by the harness with
+    a close-and-reopen of the file. *)
